@@ -87,11 +87,6 @@ Proof. intros HF. induction l as [|c l IH]; intros calls R C.
     replace (calls + 1 + Z.of_nat (length l))%Z with (calls + Z.of_nat (S (length l)))%Z by lia.
     destruct (tolc D c); cbn [negb]; rewrite <- ?app_assoc; reflexivity. Qed.
 
-Lemma while_true_S {R L St} k (body:St -> ctl R St St) s : @while_true R L St (S k) body s =
-  match body s with
-  | Next s' | Continue s' => while_true k body s'
-  | Break s' => Next s' | Return r => Return r | Raise => Raise | NoFuel => NoFuel end.
-Proof. reflexivity. Qed.
 Lemma loop_c_S weakly f D : D <> [] -> loop_c weakly (S f) D =
   match Rc D with
   | [] => if weakly then (if existsb (nofals world (map ac D)) W then Some [Cc D] else None) else None
